@@ -153,7 +153,7 @@ def parent_pool(parent_thread, memo=None):
                     if isinstance(obj, dict):
                         dicts.setdefault(id(obj), (label, obj))
         fr = fr.f_back
-    if not in_parallel:
+    if not in_parallel and memo.get("pool_obj") is None:
         return None
     full = [(lbl, d) for (lbl, d) in dicts.values() if d and all(isinstance(v, VProcess) for v in d.values())
             and all(isinstance(k, str) for k in d)]
@@ -163,9 +163,13 @@ def parent_pool(parent_thread, memo=None):
     if full:
         memo["pool_id"] = id(full[0][1])
         memo["pool_label"] = full[0][0]
+        memo["pool_obj"] = full[0][1]
         d = full[0][1]
     elif memo.get("pool_id") in dicts:
         d = dicts[memo["pool_id"]][1]
+    elif not in_parallel and memo.get("pool_obj") is not None:
+        # the caller holds a yielded result: irun's frame is suspended and on nobody's stack; the dict it keeps is the one seen before
+        d = memo["pool_obj"]
     elif "pool_id" not in memo:
         # no worker has been created yet: nothing is tracked
         return frozenset()
@@ -217,7 +221,8 @@ def abstract(ex, PS, N):
     if parent.done:
         pc = "done"
     else:
-        pc = {"put": "putstop", "start": "start|restart", "poll": "poll", "exitcode": "check"}.get(parent.op[0], "?%r" % (parent.op,))
+        pc = {"put": "putstop", "start": "start|restart", "poll": "poll", "exitcode": "check",
+              "consume": "consume"}.get(parent.op[0], "?%r" % (parent.op,))
     pool = parent_pool(parent.thread, ex.__dict__.setdefault('_conform_memo', {})) if not parent.done else frozenset()
     delivered = [0] * N
     for d in ex.delivered:
@@ -241,7 +246,8 @@ def impl_labels(sched, choices):
             continue
         t = sched.threads[what]
         if t.proc is None:
-            out.append({"put": "PPutStop", "start": "PStart|PRestart", "poll": "PPoll", "exitcode": "PCheck"}.get(t.op[0], "?%r" % (t.op,)))
+            out.append({"put": "PPutStop", "start": "PStart|PRestart", "poll": "PPoll", "exitcode": "PCheck",
+                        "consume": "PConsume"}.get(t.op[0], "?%r" % (t.op,)))
         else:
             w = int(t.name.split("-")[1])
             if not t.started:
